@@ -408,6 +408,12 @@ int main(int argc, char *argv[])
       printf("\nError: Couldn't open %s for writing.\n\n", outfile);
       exit(1);
     }
+
+    if (retcode != 0)
+    {
+      printf("\nError: Couldn't write %s.\n\n", outfile);
+      error_flag = 1;
+    }
   } while (0);
 
   if (create_list == 1)
